@@ -104,6 +104,7 @@ class Evaluator:
         self.inline = inline
         self._depth = _depth
         self._stmt_call = None
+        self._inlined_call = None
         self._forced: Dict[int, State] = {}
         self.repo = repo
         self.fn = fn
@@ -155,6 +156,9 @@ class Evaluator:
         top = None
         if isinstance(st, (ast.Expr, ast.Return)) and isinstance(st.value, ast.Call):
             top = st.value
+        elif isinstance(st, ast.Expr) and isinstance(st.value, ast.YieldFrom) and \
+                isinstance(st.value.value, ast.Call):
+            top = st.value.value
         elif isinstance(st, (ast.Assign, ast.AnnAssign)) and isinstance(st.value, ast.Call):
             top = st.value
         if top is None:
@@ -234,7 +238,10 @@ class Evaluator:
         if isinstance(st.value, ast.Constant):
             return [s]
         if isinstance(st.value, (ast.Yield, ast.YieldFrom)):
+            n0 = len(s.events)
             v = self.expr(st.value.value, s) if st.value.value is not None else NONE
+            if isinstance(st.value, ast.YieldFrom) and self._inlined_call is st.value.value:
+                return [s]      # ``yield from helper()``: the inlined helper's yields are ours
             s.events.append(Event('yield', (v,), st, s.ctx))
             return [s]
         self.expr(st.value, s)
@@ -426,7 +433,7 @@ class Evaluator:
     def st_For(self, st: ast.For, s: State):
         it = self.expr(st.iter, s)
         if it[0] in ('tuple', 'list') and 1 <= len(it[1]) <= 4 and \
-                (all(_is_literal(x) for x in it[1]) or
+                (all(_is_literal(x) for x in it[1]) or it[0] == 'tuple' or
                  isinstance(st.iter, (ast.Tuple, ast.List))):
             # a literal collection, or a display written in the loop header (its elements are
             # evaluated once, before the first iteration): executed exactly
@@ -836,6 +843,7 @@ class Evaluator:
             if id(e) in self._forced:
                 q = self._forced[id(e)]
                 self._splice(s, q, e)
+                self._inlined_call = e
                 return q.retval if q.retval is not None else NONE
             fi, cbind = tgt
             try:
@@ -846,6 +854,7 @@ class Evaluator:
             rets = [q for q in sub if q.status == 'return']
             if len(rets) == 1:
                 self._splice(s, rets[0], e)
+                self._inlined_call = e
                 return rets[0].retval if rets[0].retval is not None else NONE
             if len(rets) > 1 and e is self._stmt_call and len(rets) <= 24:
                 raise _ForkInline(e, rets)
